@@ -94,6 +94,19 @@ func check(c *pbt.Case, r *pbt.R) {
 			withStack = append(withStack, n)
 		}
 	}
+	// Which layers carry a stack is known from the case description
+	// (stacks survive transfer, C11), not only from the library.
+	if vis, err := gen.Visible(c.Spec, gen.Build(c.Spec)); err == nil {
+		want := 0
+		for _, v := range vis {
+			if v.Layer().Stack {
+				want++
+			}
+		}
+		if want != len(withStack) {
+			r.Failf("a layer that captured a stack has no reportable stack trace (or vice versa)", "model %d layers with a stack, library %d\nspec %s", want, len(withStack), c.Spec)
+		}
+	}
 	dom := string(errors.GetDomain(e))
 	if len(withStack) == 0 {
 		if len(ev.Exception) != 1 || ev.Exception[0].Stacktrace != nil {
